@@ -23,6 +23,15 @@ def chk_bin(inp):
                 return bad("binImgs(shape %s, n=%d) is not the n x n block sums" % (shape, n), numpy.asarray(got).tolist(), want.tolist())
             if abs(got.sum() - d.sum()) > 1e-9 * d.sum():
                 return bad("binning does not preserve the total flux", float(got.sum()), float(d.sum()))
+        # detector frames and masks: uint8 / uint16 / int8 / bool images, block sums exact (they do not fit the image's own type)
+        for dt, hi in (("uint8", 256), ("uint16", 65536), ("int8", 128), ("int16", 30000), ("bool", 2), ("float32", 1000)):
+            for shape in ((2 * n, 3 * n), (3, 2 * n, 2 * n)):
+                d = (rng.integers(0, hi, size=shape)).astype(dt)
+                got = IP.binImgs(d, n)
+                want = d.astype("int64").reshape(shape[:-2] + (shape[-2] // n, n, shape[-1] // n, n)).sum((-1, -3))
+                if got.shape != want.shape or not numpy.array_equal(numpy.asarray(got, dtype=float), want.astype(float)):
+                    return bad("binImgs(%s image of shape %s, n=%d) is not the n x n block sums (total flux %s -> %s)" % (dt, shape, n, int(want.sum()), float(numpy.asarray(got, dtype=float).sum())),
+                               numpy.asarray(got, dtype=float).ravel()[:6].tolist(), want.ravel()[:6].tolist())
 
 
 def chk_zoom(inp):
@@ -123,6 +132,14 @@ def crossing(x, y, frac, dia, what, data):
 
 def chk_encircled(inp):
     rng = numpy.random.default_rng(6)
+    # single-precision images whose flux lies inside the largest circle: the curve ends at 1, not above
+    for seed in range(12):
+        d32 = numpy.random.RandomState(seed).rand(64, 64).astype(numpy.float32)
+        X, Y = numpy.meshgrid(numpy.arange(64) - 31.5, numpy.arange(64) - 31.5)
+        d32[X * X + Y * Y > 256] = 0
+        y32 = PSF.encircled_energy(d32, eeDiameter=False)[1]
+        if y32.max() > 1 or y32.min() < 0 or numpy.any(numpy.diff(y32) < -1e-7):
+            return bad("encircled-energy curve of a float32 image exceeds 1 / decreases (seed %d)" % seed, float(y32.max()), "<= 1")
     for size in (8, 16, 32, 64):
         for kind in ("random", "spot", "broad"):
             d = rng.random((size, size)) if kind == "random" else numpy.exp(-((numpy.indices((size, size)) - size / 2) ** 2).sum(0) / ((0.02 if kind == "spot" else 0.16) * size ** 2))
